@@ -295,8 +295,20 @@ fn xcase_family(t: &mut Trace, seed: u64, thorough: bool, engines: &[&'static st
         for size in [1usize, 2, 4, 8, 16, 32, 64] {
             let truncs: Vec<usize> = if thorough { (1..=size).collect() } else { vec![1, (size / 2).max(1), size.saturating_sub(1).max(1), size] };
             for trunc in truncs {
-                for delta in [0usize, size, 65536 - size] {
-                    let pos = *[0usize, size, 3 * size].choose(&mut rng).unwrap();
+                // skew offsets: the ones the codecs use (0, multiples of size, the last legal one) and arbitrary
+                // ones - the engines must be bit-identical for every offset whose table indexes are in range
+                // (largest index used is size + skew_delta - 2, the table has 65535 entries)
+                let mut deltas = vec![0usize, size, 65536 - size, 1, rng.gen_range(0..=65536 - size), rng.gen_range(0..4 * size + 2)];
+                for d in [size + 1, 2 * size - 1, 3, 5, 7] {
+                    if d + size <= 65536 && rng.gen_bool(0.4) {
+                        deltas.push(d);
+                    }
+                }
+                for delta in deltas {
+                    if delta + size > 65536 {
+                        continue;
+                    }
+                    let pos = *[0usize, size, 3 * size, 5].choose(&mut rng).unwrap();
                     let len64 = rng.gen_range(1..=3);
                     cases.push(XfCase { prim, nsh: pos + size + 2, pos, size, trunc, delta, len64 });
                 }
